@@ -4,6 +4,8 @@
 (*                                                       every sentence holds, liveness included          *)
 (*   tlc -config MCPipeline_any.cfg     MCPipeline.tla   any operator: the core sentences hold            *)
 (*   tlc -config MCPipeline_aborts.cfg  MCPipeline.tla   refresh_impl as written: RejectFlagged REFUTED   *)
+(* (with two actionable images, Careful = FALSE and ListingOrder <- MCFixed, OkPublished is REFUTED as   *)
+(* well: checks/g01.py generates that model and replays TLC's counterexample on the real code)            *)
 (* checks/g01.py generates the same module for the id sets of each tier and adds                          *)
 (* INVARIANT EmitState to dump every state with all its transitions.                                    *)
 EXTENDS Pipeline, Json
